@@ -302,7 +302,7 @@ theorem star_frame (T : EnglishTables) (vs : List PVal) (colon atm : Bool) (st s
 
 /-- bare ~A writes exactly what `princ` gives for the next argument, ~S what `prin1` gives -/
 theorem a_s_agree_with_princ_prin1 (T : EnglishTables) (st st1 : St) (x : Arg) (t u : Txt)
-    (h : st.next = .ok (x, st1)) (hp : princ x = .ok t) (hq : prin1 x = .ok u) :
+    (h : st.next = .ok (x, st1)) (hp : princ T x = .ok t) (hq : prin1 T x = .ok u) :
     runSimple T .a [] false false st = .ok (st1.emit t) ∧ runSimple T .s [] false false st = .ok (st1.emit u) := by
   constructor
   · simp [runSimple, natParam, chrParam, h, hp, padAS, bind, Except.bind, pure, Except.pure]
@@ -310,7 +310,7 @@ theorem a_s_agree_with_princ_prin1 (T : EnglishTables) (st st1 : St) (x : Arg) (
 
 /-- ~mincolA pads on the right, ~mincol@A on the left, up to at least mincol columns -/
 theorem a_mincol_width (T : EnglishTables) (st st1 st2 : St) (x : Arg) (t : Txt) (mincol : Nat) (atm : Bool)
-    (h : st.next = .ok (x, st1)) (hp : princ x = .ok t)
+    (h : st.next = .ok (x, st1)) (hp : princ T x = .ok t)
     (hr : runSimple T .a [.num mincol] false atm st = .ok st2) :
     st2.out = st.out ++ (if atm then List.replicate (mincol - t.length) 32 ++ t else t ++ List.replicate (mincol - t.length) 32) := by
   have hout : st1.out = st.out := by
@@ -494,7 +494,7 @@ theorem iter_count (T : EnglishTables) (xs : List Int) :
     ∀ (k F p : Nat) (o : Txt) (hasMax : Bool) (max : Nat), p ≤ xs.length →
       k = (if hasMax then min max (xs.length - p) else xs.length - p) → k + 3 ≤ F →
       iterLoop T F bodyA hasMax max false ⟨xs.map .int, p, o⟩
-        = .ok ⟨xs.map .int, p + k, o ++ ((xs.drop p).take k).flatMap showInt⟩ := by
+        = .ok ⟨xs.map .int, p + k, o ++ ((xs.drop p).take k).flatMap (printInt T)⟩ := by
   intro k
   induction k with
   | zero =>
@@ -529,7 +529,7 @@ theorem iter_count (T : EnglishTables) (xs : List Int) :
       cases hh : hasMax
       · simp [hh] at hk ⊢; omega
       · simp [hh] at hk ⊢; omega
-    rw [ih (f' + 2) (p + 1) (o ++ showInt xs[p]) hasMax (max - 1) (by omega) hk' (by omega)]
+    rw [ih (f' + 2) (p + 1) (o ++ printInt T xs[p]) hasMax (max - 1) (by omega) hk' (by omega)]
     have hdrop : xs.drop p = xs[p] :: xs.drop (p + 1) := by
       rw [List.drop_eq_getElem_cons hplt]
     rw [hdrop, List.take_succ_cons, List.flatMap_cons, ← List.append_assoc]
@@ -539,7 +539,7 @@ theorem iter_count (T : EnglishTables) (xs : List Int) :
 /-- for the whole list and no maximum: as many iterations as elements -/
 example (T : EnglishTables) :
     iterLoop T 10 bodyA false 0 false ⟨[.int 7, .int (-3), .int 12], 0, []⟩
-      = .ok ⟨[.int 7, .int (-3), .int 12], 3, showInt 7 ++ showInt (-3) ++ showInt 12⟩ := by
+      = .ok ⟨[.int 7, .int (-3), .int 12], 3, printInt T 7 ++ printInt T (-3) ++ printInt T 12⟩ := by
   have := iter_count T [7, -3, 12] 3 10 0 [] false 0 (by simp) (by simp) (by omega)
   simpa using this
 
